@@ -242,7 +242,9 @@ class Run:
         self.loop.advance(dt)
 
     # ---- stimuli
-    def call(self, api):
+    def call(self, api, step=True):
+        """step=False: only schedule the call (used from inside a callback of the library, e.g. an application listener
+        that reacts to the 'connection is back' notification by closing the pairing)."""
         if not self.free:
             return False
         c = self.free.pop(0)
@@ -276,7 +278,8 @@ class Run:
             self.free.sort()
         task = self.loop.create_task(w())
         self.callers[c] = (task, api)
-        self.step(1)          # let the wrapper start: `call` is logged with the API's synchronous prefix
+        if step:
+            self.step(1)          # let the wrapper start: `call` is logged with the API's synchronous prefix
         return True
 
     def cancel(self, c):
